@@ -68,6 +68,7 @@ def classify(w, clause):
     for p in w["pkts"]:
         if len(p["data"]) >= 8 and p["data"][6] in (148, 149, 150, NET_ACK):
             loads.setdefault((p["src"], p["load"]), []).append(p)
+    standoff = False
     for (src, _), ps in loads.items():
         if not any(p["acked"] for p in ps):
             mine = ps[0]["data"][6]
@@ -75,7 +76,15 @@ def classify(w, clause):
             other = [q for q in w["pkts"] if len(q["data"]) >= 8 and q["src"] != src and t0 <= q["t"] <= t1 and
                      ((q["data"][6] == NET_ACK) if mine != NET_ACK else (q["data"][6] in (148, 149, 150)))]
             if other:
-                return "%s:fragmented:routed:frame-dropped-during-fragment/NETWORK_ACK-standoff" % clause
+                # the stand-off class is about frames that were given up after their FULL budget (first transmission plus
+                # tx_timeout rounds of re-sending: three for a fragment at its origin, one for a forwarded frame or a
+                # NETWORK_ACK); a frame abandoned sooner is something else and is reported on its own
+                rounds = 3 if (src == c["n"] and mine != NET_ACK) else 1
+                if ps[-1]["t"] - ps[0]["t"] < rounds * c.get("tx_timeout", 25) * 1000 * 0.9:
+                    return "%s:fragmented:routed:frame-abandoned-before-its-retry-budget" % clause
+                standoff = True
+    if standoff:
+        return "%s:fragmented:routed:frame-dropped-during-fragment/NETWORK_ACK-standoff" % clause
     return "%s:fragmented:routed:other" % clause
 
 
